@@ -67,6 +67,7 @@ func discoverModules() ([]moduleInfo, error) {
 // Prog is one loaded module (its packages plus all dependencies, from source).
 type Prog struct {
 	assignedFields map[*types.Info]map[*types.Var]bool // fieldEverAssigned cache
+	callSites      map[*types.Info]map[*types.Func]int  // singleCallSite cache
 	Module string
 	Tags   string
 	Fset   *token.FileSet
